@@ -183,6 +183,17 @@ def build_flow(row: dict, idx: int, rng: random.Random):
         body, rtype = json.dumps({"k": _text(rng, "utf8"), "n": idx}, ensure_ascii=False).encode("utf-8"), "application/json"
     coding = row["coding"]
     raw = _encode(coding, body) if body else b""
+    def imported_len(b):  # length of the body the import will produce for this class
+        if k == "utf8_bom":
+            return len(b) - 3
+        if k == "html_meta_latin1":
+            return len(b.decode("latin-1").encode("utf-8"))
+        return len(b)
+
+    while body and coding != "identity" and len(raw) == imported_len(body):
+        # representatives whose encoded and imported lengths coincide would keep their Content-Length value by accident
+        body += b" "
+        raw = _encode(coding, body)
     rf = [(b"server", b"verif")]
     if rtype:
         rf.append((b"content-type", rtype.encode()))
